@@ -104,12 +104,12 @@ Proof.
 Qed.
 
 Lemma kinv_init C selv c0 (rel : list nat -> Prop) fl alw s2 :
-  cls s2 = C -> calls s2 <= c0 ->
+  cls s2 = C -> sess_bounded s2 -> calls s2 <= c0 ->
   kinv e F n C selv fl alw c0 rel (kk e F n selv fl [] None MInit) s2
        {| gBs := []; gSs := []; gPs := [] |}.
 Proof.
-  clear Hthr. intros Hc Hcalls. unfold kinv. cbn [kk c_cur c_model c_state gBs gSs gPs map].
-  split; [reflexivity|]. split; [constructor|]. split; [now rewrite app_nil_r|].
+  clear Hthr. intros Hc Hsb Hcalls. unfold kinv. cbn [kk c_cur c_model c_state gBs gSs gPs map].
+  split; [reflexivity|]. split; [constructor|]. split; [exact Hsb|]. split; [now rewrite app_nil_r|].
   split; [unfold pot; cbn; lia|]. split; [intros S []|]. split; [exact I|].
   split; [intros P []|]. split; [exact I|]. repeat split.
 Qed.
@@ -175,7 +175,7 @@ Proof.
            (pr_base_adm e F Hpe) FPref (fun _ => true) (fl_ok_pref e n) Hgr0 Hgr0nd
            (calls s) Bd FS (pr_HBnd e F n HF Hpe)
            (fun _ => True) fuel _ s2 {| gBs := []; gSs := []; gPs := [] |}).
-  - apply kinv_init; [exact Hc2|lia].
+  - apply kinv_init; [exact Hc2|exact Hsb2|lia].
   - left. reflexivity.
   - cbn [kk c_state]. unfold pot. cbn. destruct Hfuel as [H|H]; [left; lia|now right].
   - intros k' s' g' Hi Est.
@@ -199,7 +199,7 @@ Proof.
            (pr_base_adm e F Hpe) (pr_pr_base e F n HF Hpe) FPref (fun _ => true) (fl_ok_pref e n) Hgr0 Hgr0nd
            (calls s) Bd FS (pr_HBnd e F n HF Hpe) la shortcut eq_refl
            fuel _ s2 {| gBs := []; gSs := []; gPs := [] |}).
-  - apply kinv_init; [exact Hc2|lia].
+  - apply kinv_init; [exact Hc2|exact Hsb2|lia].
   - left. reflexivity.
   - cbn [kk c_state]. discriminate.
   - cbn [kk c_state]. unfold pot. cbn. destruct Hfuel as [H|H]; [left; lia|now right].
